@@ -142,7 +142,7 @@ def check(ctx):
                 'per-protocol separation obligation wfTol at 5/10/20 % (kernel-checked, regenerated from /repo); correspondence: real CodeWrapper vs model on window-edge values (lo, hi, lo-1, hi+1) '
                 'at tolerances 5/10/20; search: ALL real decoders x keys x tolerance {20,10,5} x patterns {all-long, all-short, alternating (both phases), random x2} with |d-e| <= floor(|e| tol/400), '
                 'a tolerance-history scenario, and the converse (one burst 2.5-3.5 x tol away from every legal value, sums and multiples) must not decode as the original. distinct = (protocol, key, tol, pattern)')
-    tabs, ok = engine_prove.prove(ctx, MODULES, with_wrappers=True, wrap_kinds=('c01',), inst_kinds=('c04',))
+    tabs, ok = engine_prove.prove(ctx, MODULES, with_wrappers=True, wrap_kinds=('c01',), inst_kinds=('c04', 'c04b'))
     import fingerprint
     changed_p, changed_e = fingerprint.changed()
     focus = engine_prove.failed_protocols(ctx) | changed_p
